@@ -1,0 +1,136 @@
+//go:build verif
+
+// Contracts for package parser, read by /verif/bin/govc (comment-only file).
+
+package parser
+
+// ---------------------------------------------------------------------------
+// binding powers (C10): rank 0 = not an operator; pipe < or < and < comparison < additive <
+// multiplicative < flatten < object wildcard < filter < dot < not < bracket
+
+//@ ghost tokRank(t Int) Int = ite(t == const("lexer.PipeToken"), 1, ite(t == const("lexer.OrToken"), 2, ite(t == const("lexer.AndToken"), 3, ite(t == const("lexer.EqualToken") || t == const("lexer.NotEqualToken") || t == const("lexer.LessToken") || t == const("lexer.LessOrEqualToken") || t == const("lexer.GreaterToken") || t == const("lexer.GreaterOrEqualToken"), 4, ite(t == const("lexer.AddToken") || t == const("lexer.SubtractToken"), 5, ite(t == const("lexer.AsteriskToken") || t == const("lexer.MultiplyToken") || t == const("lexer.DivideToken") || t == const("lexer.IntegerDivideToken") || t == const("lexer.ModuloToken"), 6, ite(t == const("lexer.FlattenToken"), 7, ite(t == const("lexer.ObjectWildcardToken"), 8, ite(t == const("lexer.FilterToken"), 9, ite(t == const("lexer.DotToken"), 10, ite(t == const("lexer.NotToken"), 11, ite(t == const("lexer.ArrayWildcardToken") || t == const("lexer.OpenSqBraceToken"), 12, 0))))))))))))
+
+//@ func precedence
+//@   tags C10 C01 C04
+//@   ensures table: result == ite(tokRank(t) == 0, 0, tokRank(t) + 1)
+
+//@ func isProjectNode
+//@   tags C01 C17
+//@   ensures result == (isType(node, "*github.com/woodsbury/jmespath/internal/parser.FilterAndProjectNode") || isType(node, "*github.com/woodsbury/jmespath/internal/parser.FilterAndProjectCurrentNode") || isType(node, "*github.com/woodsbury/jmespath/internal/parser.FlattenAndProjectNode") || isType(node, "*github.com/woodsbury/jmespath/internal/parser.FlattenAndProjectCurrentNode") || isType(node, "*github.com/woodsbury/jmespath/internal/parser.ProjectArrayNode") || isType(node, "*github.com/woodsbury/jmespath/internal/parser.ProjectArrayCurrentNode"))
+
+// ---------------------------------------------------------------------------
+// parser state (C04, C10, C09).  Ghost state: the token stream tokT(k) (kind of the k-th token the
+// lexer yields, arbitrary) and the position ppos with the invariant
+//     p.curr.Type == tokT(ppos) && p.next.Type == tokT(ppos + 1).
+// The `defines` clauses of advance / advance2 / setCurrent say how the ghost state moves; everything
+// else is proved from the bodies against an arbitrary stream, i.e. for every expression text.
+
+//@ ghost precOf(t Int) Int = ite(tokRank(t) == 0, 0, tokRank(t) + 1)
+//@ ghost infixTok(t Int) Bool = tokRank(t) != 0 && t != const("lexer.NotToken")
+
+//@ func parser.advance
+//@   tags C04 C10 C09
+//@   assigns p.curr, p.next, p.lex, fam:G_pos, fam:G_toks
+//@   requires pi: p.curr.Type == tokT(ppos) && p.next.Type == tokT(ppos + 1)
+//@   ensures shift: result == nil ==> p.curr == old(p.next)
+//@   defines result == nil ==> ppos == old(ppos) + 1 && toks() == old(toks()) && p.next.Type == tokT(ppos + 1)
+//@   defines result != nil ==> ppos == old(ppos) && toks() == old(toks())
+
+//@ func parser.advance2
+//@   tags C04 C10 C09
+//@   assigns p.curr, p.next, p.lex, fam:G_pos, fam:G_toks
+//@   requires pi: p.curr.Type == tokT(ppos) && p.next.Type == tokT(ppos + 1)
+//@   defines result == nil ==> ppos == old(ppos) + 2 && toks() == old(toks()) && p.curr.Type == tokT(ppos) && p.next.Type == tokT(ppos + 1)
+//@   defines result != nil ==> ppos == old(ppos) && toks() == old(toks())
+
+//@ func parser.setCurrent
+//@   tags C04
+//@   assigns p.curr, fam:G_toks
+//@   ensures p.curr == tok
+//@   defines toks() == upd(old(toks()), ppos, tok.Type)
+
+//@ func parser.parse
+//@   tags C04 C09
+//@   assigns p.curr, p.next, p.lex, fam:G_pos, fam:G_toks
+//@   requires pi: p.curr.Type == tokT(ppos) && p.next.Type == tokT(ppos + 1)
+//@   ensures[C04] end: result1 == nil ==> p.curr.Type == const("lexer.EndToken") && result0 != nil
+
+//@ func parser.filter
+//@   tags C04 C09
+//@   assigns p.curr, p.next, p.lex, fam:G_pos, fam:G_toks
+//@   requires pi: p.curr.Type == tokT(ppos) && p.next.Type == tokT(ppos + 1)
+//@   ensures pi: result1 == nil ==> p.curr.Type == tokT(ppos) && p.next.Type == tokT(ppos + 1)
+//@   ensures[C04] close: result1 == nil ==> tokT(ppos - 1) == const("lexer.CloseSqBraceToken") && ppos > old(ppos) + 1
+
+//@ func parser.expression
+//@   tags C10 C04 C09
+//@   assigns p.curr, p.next, p.lex, fam:G_pos, fam:G_toks
+//@   requires pi: p.curr.Type == tokT(ppos) && p.next.Type == tokT(ppos + 1)
+//@   ensures pi: result1 == nil ==> p.curr.Type == tokT(ppos) && p.next.Type == tokT(ppos + 1)
+//@   ensures[C09] progress: result1 == nil ==> ppos > old(ppos) && result0 != nil
+//@   ensures[C10] stop: result1 == nil ==> precOf(p.curr.Type) <= prec || !infixTok(p.curr.Type)
+//@   at advance#* assert[C10] tighter: precOf(p.curr.Type) > prec
+//@   at advance2#* assert[C10] tighter: precOf(p.curr.Type) > prec
+//@   at expression#* assert[C10] leftassoc: arg1 == precOf(tokT(ppos - 1))
+//@   loop 1
+//@     invariant p.curr.Type == tokT(ppos) && p.next.Type == tokT(ppos + 1)
+//@     invariant ppos > old(ppos)
+//@     invariant newPrec == precOf(p.curr.Type)
+//@     invariant node != nil
+
+//@ func parser.primaryExpression
+//@   tags C10 C04 C09
+//@   assigns p.curr, p.next, p.lex, fam:G_pos, fam:G_toks
+//@   requires pi: p.curr.Type == tokT(ppos) && p.next.Type == tokT(ppos + 1)
+//@   ensures pi: result1 == nil ==> p.curr.Type == tokT(ppos) && p.next.Type == tokT(ppos + 1)
+//@   ensures[C09] progress: result1 == nil ==> ppos > old(ppos) && result0 != nil
+//@   at expression#* assert[C10] prefix: arg1 == 1 || arg1 >= precOf(const("lexer.MultiplyToken"))
+
+//@ func parser.projection
+//@   tags C04 C09 C01
+//@   assigns p.curr, p.next, p.lex, fam:G_pos, fam:G_toks
+//@   requires pi: p.curr.Type == tokT(ppos) && p.next.Type == tokT(ppos + 1)
+//@   ensures pi: result1 == nil ==> p.curr.Type == tokT(ppos) && p.next.Type == tokT(ppos + 1)
+//@   ensures[C09] progress: result1 == nil && result0 != nil ==> ppos > old(ppos)
+//@   ensures none: result1 == nil && result0 == nil ==> ppos == old(ppos) && toks() == old(toks())
+//@   loop 1
+//@     invariant p.curr.Type == tokT(ppos) && p.next.Type == tokT(ppos + 1) && ppos > old(ppos) && newPrec == precOf(p.curr.Type) && node != nil
+
+//@ func parser.index
+//@   tags C04 C09 C12
+//@   assigns p.curr, p.next, p.lex, fam:G_pos, fam:G_toks
+//@   requires pi: p.curr.Type == tokT(ppos) && p.next.Type == tokT(ppos + 1)
+//@   ensures pi: result2 == nil ==> p.curr.Type == tokT(ppos) && p.next.Type == tokT(ppos + 1)
+//@   ensures[C04] close: result2 == nil ==> tokT(ppos - 1) == const("lexer.CloseSqBraceToken") && ppos > old(ppos) && result0 != nil
+
+//@ func parser.selectArray
+//@   tags C04 C09
+//@   assigns p.curr, p.next, p.lex, fam:G_pos, fam:G_toks
+//@   requires pi: p.curr.Type == tokT(ppos) && p.next.Type == tokT(ppos + 1)
+//@   ensures pi: result1 == nil ==> p.curr.Type == tokT(ppos) && p.next.Type == tokT(ppos + 1)
+//@   ensures[C04] close: result1 == nil ==> tokT(ppos - 1) == const("lexer.CloseSqBraceToken") && ppos > old(ppos) && result0 != nil
+//@   loop 1
+//@     invariant p.curr.Type == tokT(ppos) && p.next.Type == tokT(ppos + 1) && fresh(fields)
+//@     invariant[C04] separator: ppos == old(ppos) || (tokT(ppos - 1) == const("lexer.CommaToken") && ppos > old(ppos))
+
+//@ func parser.selectObject
+//@   tags C04 C09
+//@   assigns p.curr, p.next, p.lex, fam:G_pos, fam:G_toks
+//@   requires pi: p.curr.Type == tokT(ppos) && p.next.Type == tokT(ppos + 1)
+//@   ensures pi: result1 == nil ==> p.curr.Type == tokT(ppos) && p.next.Type == tokT(ppos + 1)
+//@   ensures[C04] close: result1 == nil ==> tokT(ppos - 1) == const("lexer.CloseBraceToken") && ppos > old(ppos) && result0 != nil
+//@   at advance2#1 assert[C04] key: p.curr.Type == const("lexer.QuotedIdentifierToken") || p.curr.Type == const("lexer.UnquotedIdentifierToken")
+//@   loop 1
+//@     invariant p.curr.Type == tokT(ppos) && p.next.Type == tokT(ppos + 1)
+//@     invariant[C04] separator: ppos == old(ppos) || (tokT(ppos - 1) == const("lexer.CommaToken") && ppos > old(ppos))
+
+//@ func parser.let
+//@   tags C04 C09 C19
+//@   assigns p.curr, p.next, p.lex, fam:G_pos, fam:G_toks
+//@   requires pi: p.curr.Type == tokT(ppos) && p.next.Type == tokT(ppos + 1)
+//@   ensures pi: result1 == nil ==> p.curr.Type == tokT(ppos) && p.next.Type == tokT(ppos + 1)
+//@   ensures[C09] progress: result1 == nil ==> ppos > old(ppos) && result0 != nil
+//@   at advance2#1 assert[C04 C19] binding: p.curr.Type == const("lexer.VariableToken") && p.next.Type == const("lexer.AssignToken")
+//@   loop 1
+//@     invariant p.curr.Type == tokT(ppos) && p.next.Type == tokT(ppos + 1)
+//@     invariant[C04] separator: ppos == old(ppos) || (tokT(ppos - 1) == const("lexer.CommaToken") && ppos > old(ppos))
